@@ -429,7 +429,12 @@ def run_shard(ctx, shard):
         for op in ("multiply2", "negate", "square", "inverse", "set", "get", "into_montgomery_form", "legendre", "sqrt_of_square", "predicates"):
             B = A
             if op in ("legendre", "sqrt_of_square", "inverse") and len(A) > 400:
-                B = A[:: len(A) // 400]       # each costs an exponentiation; keep boundary classes, thin the product
+                # each costs an exponentiation / a binary Euclid: keep EVERY named boundary value (as value and as internal residue: the
+                # inversion works on the stored words, so raw words like 2^32+1, 2^64 or 2^k with many trailing zero bits matter) and thin
+                # only the limb products
+                core = alpha.boundary(m, bits, seed, nfill=6 if tier == "quick" else 16)
+                core = alpha.dedup(core + residue_twin(field, core))
+                B = alpha.dedup(core + A[:: len(A) // 400])
             if op == "multiply2":
                 B = alpha.dedup(A + residue_twin(field, [v for v in alpha.half_limb_product(m, bits // 64) if v < m]))
             for a in B:
